@@ -290,6 +290,19 @@ func run(r *h.Run, idx int, pol policy) {
 			return
 		}
 	}
+	// settle: the subscriber's reader goroutine writes its last acknowledgements
+	// after it has taken them off its books, possibly after the two PINGs above;
+	// fence behind them (bounded) until the broker's count is at rest. A leaked
+	// token never comes back, so waiting cannot hide one.
+	if ci := b.ClientOf(s.Name); ci != nil {
+		for k := 0; k < 50; k++ {
+			free, _, _, _, _, _ := ci.Client.VerifTokens()
+			if free >= pol.Window-1 || bh.Ping(s) != nil {
+				break
+			}
+			time.Sleep(time.Millisecond)
+		}
+	}
 	// completeness
 	sub.mu.Lock()
 	defer sub.mu.Unlock()
